@@ -64,10 +64,12 @@ def gen_cases(tier, seed):
         if method == "average_outside":
             outside = rnd.choice([0.0, 1.0, 255.0, 0.5, -10.0, 300.0, 65535.0, 1e6, 7.25,
                                   float(rnd.randint(0, 300))])
+        pattern = rnd.choice(["limits", "dyadic", "labels", "random", "random", "twolabels",
+                              "big"])
+        if dt == "float32" and method != "majority" and rnd.random() < 0.25:
+            pattern = "nan"       # some voxels are not-a-number (masked data)
         cases.append({"method": method, "dtype": dt, "shape": shape, "factors": factors,
-                      "outside": outside, "pattern": rnd.choice(
-                          ["limits", "dyadic", "labels", "random", "random", "twolabels",
-                           "big"]),
+                      "outside": outside, "pattern": pattern,
                       "layout": rnd.choice(["C", "C", "F", "view"]),
                       "vseed": rnd.randrange(2 ** 32)})
     # directed: larger arrays (dimensions beyond 32 / 64, odd sizes, production-like chunk)
@@ -121,6 +123,9 @@ def _values(case, count):
             pool = [k / 8.0 for k in range(-40, 41)] + [float(2 ** k) for k in range(0, 20)]
         else:
             pool = None
+        if pat == "nan":
+            return [float("nan") if rnd.random() < 0.12 else rnd.choice(
+                [k / 8.0 for k in range(-40, 41)]) for _ in range(count)]
         if pool:
             return [rnd.choice(pool) for _ in range(count)]
         return [dx.f32(rnd.uniform(-1, 1) * 2.0 ** rnd.randint(-10, 30)) for _ in range(count)]
@@ -321,6 +326,19 @@ def run_case(case):
                         inside = dsx.block_values(nested, t, z, y, x, factors, None)
                         if len(inside) != len(bv):
                             obs["overhang_blocks"] += 1
+                        if any(isinstance(b, float) and math.isnan(b) for b in bv):
+                            # the mean of a block that contains a not-a-number voxel is
+                            # not a number, whatever the chunk geometry
+                            obs["blocks_with_nan"] = obs.get("blocks_with_nan", 0) + 1
+                            if not (isinstance(g, float) and math.isnan(g)):
+                                v.append({"kind": "wrong-value", "detail":
+                                          f"{m} {case['dtype']} shape {shape} factors "
+                                          f"{factors} outside={case['outside']} layout="
+                                          f"{case['layout']}: output {(t, z, y, x)} = {g!r} "
+                                          f"for a block that contains NaN ({bv[:8]})"})
+                                if len(v) > 8:
+                                    return {"violations": v, "obs": obs}
+                            continue
                         mean, want = dsx.average_exact(bv, case["dtype"])
                         if isint:
                             if mean.denominator == 2:
@@ -356,7 +374,8 @@ def run_case(case):
                     else:
                         bv = dsx.block_values(nested, t, z, y, x, factors, None)
                         want = bv[0]
-                        ok = (g == want)
+                        ok = (g == want) or (isinstance(g, float) and isinstance(want, float)
+                                             and math.isnan(g) and math.isnan(want))
                         rng_ok = ok
                     if not ok or not rng_ok:
                         viol = {"kind": "wrong-value" if not ok else "outside-min-max",
@@ -387,4 +406,5 @@ def gates(obs, tier):
         "unsupported_probes_run": obs.get("unsupported_probes", 0) >= 10,
         "arrays_beyond_64_per_axis": obs.get("large_arrays", 0) > 0,
         "arrays_beyond_2_20_voxels": obs.get("huge_arrays", 0) > 0,
+        "blocks_containing_nan": obs.get("blocks_with_nan", 0) > 100,
     }
